@@ -73,6 +73,13 @@ def cases(rng, tier):
             l = [rng.choice(grp) for _ in range(ngrp)] + [rng.choice("GSQNTAYHCMLIVFW") for _ in range(nother)]
             rng.shuffle(l)
             yield Case(block("".join(l), rng), {"kind": "one-group-many-others"})
+    # several kappa_X calls on ONE object with related groups: the same letters split differently, a one-group call after a two-group call
+    for kind_, sq in gen.rand_seqs(rng, 20 if tier == "quick" else 200, 60):
+        calls = [(list("ED"), list("KRP")), (list("PEDKR"), None), (list("ED"), list("KR")), (list("DEKR"), None), (list("E"), list("DKR")), (list("EDK"), list("R")),
+                 (list("AG"), list("STV")), (list("AGS"), list("TV")), (list("KR"), list("ED"))]
+        rng.shuffle(calls)
+        lines = ["new 0 " + sq] + ["o 0 kappaX %s %s" % (tok(a), tok(b)) for a, b in calls[:rng.randint(3, 9)]] + ["o 0 omega", "o 0 kappa"]
+        yield Case(lines, {"kind": "repeated-calls", "judge_from": 1})
     # the same query several times in a row on one object
     for c in gen.repeated_call_cases(rng, 8 if tier == "quick" else 60, ['omega', 'kappaX s000045,s000044 s00004b,s000052'], gen.CLAMP_BAND[:8] if True else ()):
         yield c
